@@ -153,16 +153,13 @@ func verifyFunction(w *World, fn *ssa.Function) (rep *FnReport) {
 			env := fx.specEnv(rst, rold, nil)
 			fx.bindResults(env, con.Results, fn.Signature, fx.retVals[ri])
 			for _, en := range con.Ensures {
-				sv := env.eval(en.Expr)
-				g := "false"
-				if sv != nil && len(sv.V.L) == 1 {
-					g = sv.V.L[0]
+				for pi, nt := range env.evalSplit(en.Expr) {
+					name := "ensures" + en.labelStr() + partName(nt, pi)
+					if len(fx.rets) > 1 {
+						name += fmt.Sprintf("@return%d", ri+1)
+					}
+					e.addObl("contract", name, fx.partTags(en, nt), rst, nt.term, fx.retPos[ri])
 				}
-				name := "ensures" + en.labelStr()
-				if len(fx.rets) > 1 {
-					name += fmt.Sprintf("@return%d", ri+1)
-				}
-				e.addObl("contract", name, en.Tags, rst, g, fx.retPos[ri])
 			}
 		}
 		if con.Constructor && rv != nil {
